@@ -59,10 +59,21 @@ def propModes (cands : List Nat) (pre post : Screen) (ml : List Nat) (isSet : Bo
      allCellsB post.lines post.columns (fun y x => decide (post.cell y x = blankWith post.cursor.attr)) &&
      post.cursor.x == 0 && post.cursor.y == homeRow post))
 
+/-- The DECSCNM clause between two mode switches: reverse video stays on "the default rendition", i.e. on what
+    a reset inside an SGR list resets to.  Only the `reverse` flag is looked at, and only for parameter lists
+    whose documented outcome DEPENDS on the default rendition's flag (`0`, `0;1`, `1;0;4`, ... but not `0;7` or
+    `38;5;0`): everything else about SGR is C08's business. -/
+def propRev (pre : Screen) (attrs : List Nat) (post : Screen) : Bool :=
+  let d := defaultAttr pre
+  let rT := (C08.specSgr { d with reverse := true } attrs pre.cursor.attr).reverse
+  let rF := (C08.specSgr { d with reverse := false } attrs pre.cursor.attr).reverse
+  rT == rF || post.cursor.attr.reverse == (C08.specSgr d attrs pre.cursor.attr).reverse
+
 def propC12 (cands : List Nat) (pre : Screen) (c : Call) (post : Screen) : Bool :=
   match c with
   | .setMode ms p => propModes cands pre post (shiftModes ms p) true
   | .resetMode ms p => propModes cands pre post (shiftModes ms p) false
+  | .sgr attrs => propRev pre attrs post
   | _ => true
 
 end C12
